@@ -51,7 +51,11 @@ def lattices(draw, max_n=12, flags=True, min_cells=1, spacings=SPACINGS):
     fl = None
     if flags and draw(st.booleans()):
         fl = [0 if z else 1 for z in draw(st.lists(st.sampled_from([False, False, False, True]), min_size=len(cells), max_size=len(cells)))]
-    dh_mode = draw(st.sampled_from(["decimal", "decimal", "diff", "none"]))
+    # the spacing is either given (decimal) or inferred by the library from the first two origins ("none").
+    # ("diff" = handing in a float difference of two coordinates oneself, as load_ascii used to do internally, is still
+    #  understood by Lattice for old replay files but no longer generated: the library now de-noises what it infers itself,
+    #  and a noisy spacing passed explicitly is the caller's value.)
+    dh_mode = draw(st.sampled_from(["decimal", "decimal", "none", "none"]))
     if dh_mode == "none":
         # from_origins(dh=None) infers the spacing from the first two origins: they must be neighbours
         have = set(map(tuple, cells))
